@@ -232,3 +232,121 @@ def run(chk):
     from .. import modes
     n = modes.check_modes(chk, F, "R03.8", c02.MODE_FILES)
     chk.floor("R03.8", "mode-specific call sites", n, 70)
+
+
+# ---- R03.9 merging the locks of one spending path -----------------------------------------------------------------------------------
+
+def check_lock_merge(chk, F, rid="R03.9"):
+    import itertools
+    from ..interp import Machine, Adt, Term, PyVec, Panic, some, NONE
+    from .. import builtins as B
+    from ..builtins import deref
+    chk.rule(rid, "RelLockTime::max / AbsLockTime::max return the later of two locks of one unit (either of two equal ones) and "
+                  "None exactly when the units differ; Satisfaction::concatenate_rev - the join of two parts of one spending "
+                  "path - reports the later lock of each kind, keeps a lock only one part has, and is IMPOSSIBLE exactly when a "
+                  "part is IMPOSSIBLE or two locks of one kind differ in unit (so two equal locks on one path stay available, "
+                  "and the non-malleable chooser does not prefer a branch with an extra signature because of them)")
+    try:
+        rmax = [q for q in F.fns if q.endswith("RelLockTime::max")][0]
+        amax = [q for q in F.fns if q.endswith("AbsLockTime::max")][0]
+        cat = F.fn("concatenate_rev", file="satisfy/mod.rs")
+    except (IndexError, KeyError) as e:
+        chk.fail(rid, "anchor", "RelLockTime::max / AbsLockTime::max / concatenate_rev not found: %r" % (e,), kind="unanalysable")
+        return
+    chk.saw(rmax, amax, cat)
+    RL = [a for a in F.adts if a.endswith("relative_locktime::RelLockTime")][0]
+    AL = [a for a in F.adts if a.endswith("absolute_locktime::AbsLockTime")][0]
+    TYPE = 1 << 22
+
+    def pcmp(m_, a, c):
+        x, y = deref(a[0]), deref(a[1])
+        if isinstance(x, tuple) and isinstance(y, tuple) and x[0] == y[0] and x[0] in ("rel", "abs"):
+            if x[0] == "rel":
+                if (x[1] & TYPE) != (y[1] & TYPE):
+                    return NONE
+                u, v = x[1] & 0xffff, y[1] & 0xffff
+            else:
+                if (x[1] < 500000000) != (y[1] < 500000000):
+                    return NONE
+                u, v = x[1], y[1]
+            return some(Adt(B.ORDERING, "Less" if u < v else ("Greater" if u > v else "Equal"), {}))
+        return B.NOT_HANDLED
+    hooks = {"std::cmp::PartialOrd::partial_cmp": pcmp,
+             "bitcoin::Sequence::to_relative_lock_time": lambda m_, a, c: some(("rel", deref(a[0]))) if (deref(a[0]) & (1 << 31)) == 0 else NONE}
+    m = Machine(F, strict=True, hooks=hooks)
+
+    def rel(n):
+        return Adt(RL, "RelLockTime", {"0": n})
+
+    def ab(n):
+        return Adt(AL, "AbsLockTime", {"0": ("abs", n)})
+
+    def val(v):
+        v = deref(v)
+        x = deref(v.fields["0"])
+        return x[1] if isinstance(x, tuple) else x
+    n = 0
+    try:
+        rels = [5, 9, 9 | (1 << 16), 65535, 5 | TYPE, 9 | TYPE]
+        abss = [100, 101, 499999999, 500000000, 500000007]
+        for (mk, fn_, vals, unit, num) in ((rel, rmax, rels, lambda x: x & TYPE, lambda x: x & 0xffff),
+                                           (ab, amax, abss, lambda x: x >= 500000000, lambda x: x)):
+            bad = []
+            for x, y in itertools.product(vals, repeat=2):
+                r = m.call_path(fn_, [mk(x), mk(y)])
+                n += 1
+                if unit(x) != unit(y):
+                    good = r.variant == "None"
+                else:
+                    good = r.variant == "Some" and num(val(r.fields["0"])) == max(num(x), num(y)) and val(r.fields["0"]) in (x, y)
+                if not good:
+                    bad.append("max(%d, %d) = %r" % (x, y, r))
+            chk.obligation(rid, not bad, fn_.rsplit("::", 2)[-2] + "::max", "%d pair(s); first: %s" % (len(bad), bad[0] if bad else ""),
+                           F.fns[fn_]["span"], detail=bad[:8])
+        # concatenate_rev
+        WIT = satmodel.WIT
+        SATN = satmodel.SAT
+
+        def sat(stack, r_, a_, sig=False):
+            st = Adt(WIT, "Impossible", {}) if stack is None else Adt(WIT, "Stack", {"0": PyVec(list(stack))})
+            return Adt(SATN, "Satisfaction", {"stack": st, "has_sig": sig, "relative_timelock": NONE if r_ is None else some(rel(r_)),
+                                              "absolute_timelock": NONE if a_ is None else some(ab(a_))})
+        bad = []
+        ropts = [None, 5, 9, 5 | TYPE]
+        aopts = [None, 100, 500000007]
+        for (r1, a1), (r2, a2) in itertools.product(itertools.product(ropts, aopts), repeat=2):
+            for imp in (None, 1, 2):
+                s1 = sat(None if imp == 1 else ["x1"], r1, a1, sig=True)
+                s2 = sat(None if imp == 2 else ["x2"], r2, a2)
+                r = m.call_callee({"def": cat, "resolved": cat, "name": "concatenate_rev", "targs": ["PK"]}, [s1, s2])
+                n += 1
+                conflict = (r1 is not None and r2 is not None and (r1 & TYPE) != (r2 & TYPE)) or \
+                    (a1 is not None and a2 is not None and (a1 >= 500000000) != (a2 >= 500000000))
+                st = deref(r.fields["stack"])
+                if imp is not None or conflict:
+                    if st.variant != "Impossible":
+                        bad.append("parts (%s,%s)+(%s,%s)%s: %s, expected IMPOSSIBLE" % (r1, a1, r2, a2, " one part impossible" if imp else "", st.variant))
+                    continue
+                wr = None if r1 is None and r2 is None else max(x for x in (r1, r2) if x is not None)
+                wa = None if a1 is None and a2 is None else max(x for x in (a1, a2) if x is not None)
+                gr = r.fields["relative_timelock"]
+                ga = r.fields["absolute_timelock"]
+                gotr = None if gr.variant == "None" else val(gr.fields["0"])
+                gota = None if ga.variant == "None" else val(ga.fields["0"])
+                if st.variant != "Stack" or gotr != wr or gota != wa or r.fields["has_sig"] is not True:
+                    bad.append("parts (%s,%s)+(%s,%s): witness %s, locks (%s,%s), has_sig %r; expected a stack with locks (%s,%s)"
+                               % (r1, a1, r2, a2, st.variant, gotr, gota, r.fields["has_sig"], wr, wa))
+        chk.obligation(rid, not bad, "concatenate_rev", "%d case(s); first: %s" % (len(bad), bad[0] if bad else ""), F.fns[cat]["span"], detail=bad[:8])
+    except Unsupported as e:
+        chk.fail(rid, "unanalysable", "unanalysable: %s" % e, where=e.where, kind="unanalysable")
+    except Panic as e:
+        chk.fail(rid, "panic", "panic: %s" % e, where="src/miniscript/satisfy/mod.rs")
+    chk.floor(rid, "cases", n, 400)
+
+
+_run0 = run
+
+
+def run(chk):
+    _run0(chk)
+    chk.guard("R03.9", "lock-merge", check_lock_merge, chk, chk.facts())
